@@ -75,27 +75,45 @@ func c01Scenarios(tier string) []*hist.Scenario {
 		}
 		return out
 	}
+	// Thorough, smallest shapes first (histories in normal form before no-effect
+	// pruning, `vcheck countshape`): N2K2Y3 pair 0.84k, N3K3Y3 single 0.93k,
+	// N2K2Y4 pair 2.4k, N3K3Y4 single 3.9k, N3K3Y3 pair 4.1k, N2K3Y4 pair 12.6k,
+	// N4K4Y4 single 29k. (N5 is 1.3M per kind: out of reach, not claimed.)
 	for _, f := range families() {
 		for _, al := range pairs(f.ops) {
-			add(f.name, "", f.init, al, 2, 2, 4, 0)
+			add(f.name, "", f.init, al, 2, 2, 3, 0)
 		}
 	}
 	for _, f := range families() {
-		for _, al := range pairs(f.ops) {
-			add(f.name, "", f.init, al, 3, 3, 4, 1)
+		for _, op := range f.ops {
+			add(f.name, "", f.init, []string{op}, 3, 3, 3, 1)
 		}
 	}
 	for _, f := range coreFamilies() {
 		for _, al := range pairs(f.ops) {
-			add(f.name, "", f.init, al, 2, 3, 4, 0)
+			add(f.name, "", f.init, al, 2, 2, 4, 0)
 		}
 	}
-	// N = 4, 5: one edit per client, single kinds
-	for _, n := range []int{4, 5} {
-		for _, f := range coreFamilies() {
-			for _, op := range f.ops {
-				add(f.name, "", f.init, []string{op}, n, n, n, 1)
+	for _, f := range coreFamilies() {
+		for _, op := range f.ops {
+			add(f.name, "", f.init, []string{op}, 3, 3, 4, 1)
+		}
+	}
+	for _, f := range coreFamilies() {
+		for _, al := range pairs(f.ops) {
+			if len(al) == 2 {
+				add(f.name, "", f.init, al, 3, 3, 3, 1)
 			}
+		}
+	}
+	for _, f := range coreFamilies() {
+		for _, op := range f.ops[:3] {
+			add(f.name, "", f.init, []string{op}, 4, 4, 4, 1)
+		}
+	}
+	for _, f := range coreFamilies() {
+		for _, al := range pairs(f.ops[:4]) {
+			add(f.name, "", f.init, al, 2, 3, 4, 0)
 		}
 	}
 	return out
@@ -131,7 +149,7 @@ func init() {
 			"values outside the alphabets (long strings, many keys) are not explored",
 			"Go map iteration order inside the code under test is not controlled; every violation is re-executed 5x",
 		},
-		QuickBudget: 150 * time.Second,
+		QuickBudget: 300 * time.Second,
 	})
 }
 
